@@ -119,6 +119,8 @@ def run(chk, replay=None):
         from checks import g02
         g02.run_growth(chk, tier, chk.seed)
         chk.assumptions.append("growth (drift only): InfoLevels.tla -- SMB1 information levels (MS-CIFS 2.2.8), SecurityFeatures readings, fixed-layout MS-DTYP structures (DESIGN 13.7 G02)")
+        # ---- the same entry points called by 8 goroutines at once (race-detector build): results as when called alone
+        vlib.parallel_callers(chk, "types,smb")
     finally:
         shutil.rmtree(d, ignore_errors=True)
 
